@@ -261,6 +261,15 @@ def generate(ctx):
                 p = (b"\x00" * n) if mk == "zeros" else (b"abcdefghij" * 3000)[:n]
                 for tokens, actual in ((["deflate"], ["raw"]), (["gzip"], ["gzip"]), (["lzma"], ["lzma"]), (["deflate", "gzip"], ["raw", "gzip"])):
                     add_cases(cases, metas, ctx, "tail:" + mk, p, tokens, actual, big, framings=("cl",), single_cut_limit=0, n_random=1, one_byte_limit=0)
+    # 4c. LZMA properties the SDK refuses (LzmaDec_Allocate fails on every call), memory limit, garbage after a valid header
+    for body in (b"\xff" * 20, b"\xe1" + b"\x00" * 30, b"\x5d\x00\x00\x80\x00" + b"\xff" * 8 + b"\x00garbage" * 3):
+        for tok in (b"lzma", b"gzip, lzma", b"lzma, gzip"):
+            for cfg in (dict(bomb=1000000, lzmalayers=2), dict(bomb=1000000, lzmalayers=2, lzmamem=10)):
+                head, framed = frame(body, "cl", tok, r)
+                for cname, chunks in chunkings(head, framed, r, single_cut_limit=0, n_random=1, one_byte_limit=100):
+                    cases.append(mk_case(cfg, chunks))
+                    metas.append(Meta(name="lzmaerr", payload=None, tokens=None, actual=None, native=False, cfg=dict(cfg),
+                                      maxchunk=max(len(c) for c in chunks), framing="cl", chunking=cname, wirebody=body, complete=True))
     # 5. bombs: small limits, nested streams, lzma
     zeros = b"\x00" * (4 << 20 if th else 1 << 20)
     for tokens, actual in ((["gzip"], ["gzip"]), (["gzip", "gzip"], ["gzip", "gzip"]), (["lzma"], ["lzma"]), (["gzip", "lzma"], ["gzip", "lzma"]),
